@@ -9,7 +9,8 @@ CONTRACTS = {
         props=["C07", "C08"],
         params={"self": OBJ("Graph"), "values": DICT(STR, ANY)},
         returns=OBJ("Graph"),
-        may_raise={"ValueError": "len(values) > 0"},   # only a named key can be rejected
+        # a name can be bound iff it is an input or a DATA output of the graph (never an ordering-only name), whichever key is wrong
+        raises={"ValueError": "any(k in self._get_emit_only_outputs() or (k not in self.inputs.all and k not in self.outputs) for k in values)"},
         ensures=[
             "result is not self", "result._bound is not self._bound",
             # the new graph's bindings: the receiver's, overridden by the new ones; same nodes
@@ -20,7 +21,7 @@ CONTRACTS = {
         ],
         # FRAME: nothing that existed before the call is written (the receiver, its bindings, the caller's mapping)
         modifies=[],
-        loops=[{"modifies": [], "invariant": []}],
+        loops=[{"modifies": [], "invariant": ["not any(k in emit_only or k not in valid_names for k in _seq[:_i])"]}],
     ),
     GC + "Graph.unbind": dict(
         props=["C07"],
@@ -62,6 +63,7 @@ CONTRACTS = {
         ensures=["all(any(k in n.outputs for n in self._nodes.values()) and not any(k in n.data_outputs for n in self._nodes.values()) for k in result)",
                  "all(all(o in result or any(o in m.data_outputs for m in self._nodes.values()) for o in n.outputs) for n in self._nodes.values())"],
         modifies=[],
+        pure=True,  # a function of the (immutable) graph: call sites and clauses share the term
         loops=[{"modifies": ["data_outputs", "all_outputs"], "invariant": [
             "all(all(o in data_outputs for o in m.data_outputs) for m in _seq[:_i])", "all(any(k in m.data_outputs for m in _seq[:_i]) for k in data_outputs)",
             "all(all(o in all_outputs for o in m.outputs) for m in _seq[:_i])", "all(any(k in m.outputs for m in _seq[:_i]) for k in all_outputs)"]}],
